@@ -14,13 +14,13 @@ package types
 //          \                  /
 //               Linear {}
 
-//@ spec base(m Modality) bool = is(m, ReplicableMode) || is(m, MulticastMode) || is(m, AffineMode) || is(m, LinearMode)
-//@ spec ge(a Modality, b Modality) bool = base(a) && base(b) && (is(a, ReplicableMode) || tag(a) == tag(b) || is(b, LinearMode))
-//@ spec allowsW(m Modality) bool = is(m, ReplicableMode) || is(m, AffineMode)
-//@ spec allowsC(m Modality) bool = is(m, ReplicableMode) || is(m, MulticastMode)
+//@ macro base(m Modality) bool = is(m, ReplicableMode) || is(m, MulticastMode) || is(m, AffineMode) || is(m, LinearMode)
+//@ macro ge(a Modality, b Modality) bool = base(a) && base(b) && (is(a, ReplicableMode) || tag(a) == tag(b) || is(b, LinearMode))
+//@ macro allowsW(m Modality) bool = is(m, ReplicableMode) || is(m, AffineMode)
+//@ macro allowsC(m Modality) bool = is(m, ReplicableMode) || is(m, MulticastMode)
 //@ spec toLower(s string) string
-//@ spec lowerCaseSpelling(s string) bool = s == "r" || s == "rep" || s == "replicable" || s == "m" || s == "mul" || s == "multicast" || s == "a" || s == "aff" || s == "affine" || s == "l" || s == "lin" || s == "linear"
-//@ spec spellTag(s string) int = ite(s == "r" || s == "rep" || s == "replicable", typeid(ReplicableMode),
+//@ macro lowerCaseSpelling(s string) bool = s == "r" || s == "rep" || s == "replicable" || s == "m" || s == "mul" || s == "multicast" || s == "a" || s == "aff" || s == "affine" || s == "l" || s == "lin" || s == "linear"
+//@ macro spellTag(s string) int = ite(s == "r" || s == "rep" || s == "replicable", typeid(ReplicableMode),
 //@        ite(s == "m" || s == "mul" || s == "multicast", typeid(MulticastMode),
 //@        ite(s == "a" || s == "aff" || s == "affine", typeid(AffineMode),
 //@        ite(s == "l" || s == "lin" || s == "linear", typeid(LinearMode), typeid(InvalidMode)))))
@@ -85,3 +85,64 @@ package types
 //@ lemma C17.monoC: forall a Modality, b Modality :: ge(a, b) && allowsC(b) ==> allowsC(a)
 //@ lemma C17.structural: forall r Modality, m Modality, a Modality, l Modality :: is(r, ReplicableMode) && is(m, MulticastMode) && is(a, AffineMode) && is(l, LinearMode) ==> allowsW(r) && allowsC(r) && !allowsW(m) && allowsC(m) && allowsW(a) && !allowsC(a) && !allowsW(l) && !allowsC(l)
 //@ lemma C17.abbrev: spellTag("r") == spellTag("rep") && spellTag("rep") == spellTag("replicable") && spellTag("m") == spellTag("mul") && spellTag("mul") == spellTag("multicast") && spellTag("a") == spellTag("aff") && spellTag("aff") == spellTag("affine") && spellTag("l") == spellTag("lin") && spellTag("lin") == spellTag("linear") && spellTag("rep") == typeid(ReplicableMode) && spellTag("mul") == typeid(MulticastMode) && spellTag("aff") == typeid(AffineMode) && spellTag("lin") == typeid(LinearMode)
+
+// ---------------------------------------------------------------------------------------------
+// Shape of type trees (assumed of what the parser builds, re-established by every constructor):
+// finite (size decreases towards the leaves) and without nil children.
+
+//@ spec size(t SessionType) int
+//@ spec shapeOK(t SessionType) bool = t != nil && size(t) >= 0 &&
+//@    (is(t, SendType) ==> child(SendType(t).Left, size(t)) && child(SendType(t).Right, size(t))) &&
+//@    (is(t, ReceiveType) ==> child(ReceiveType(t).Left, size(t)) && child(ReceiveType(t).Right, size(t))) &&
+//@    (is(t, SelectLabelType) ==> optionsShape(SelectLabelType(t).Branches, size(t))) &&
+//@    (is(t, BranchCaseType) ==> optionsShape(BranchCaseType(t).Branches, size(t))) &&
+//@    (is(t, UpType) ==> child(UpType(t).Continuation, size(t))) &&
+//@    (is(t, DownType) ==> child(DownType(t).Continuation, size(t)))
+//@ macro child(t SessionType, bound int) bool = t != nil && shapeOK(t) && size(t) >= 0 && size(t) < bound
+//@ macro optionsShape(bs []Option, bound int) bool = forall k int :: 0 <= k && k < len(bs) ==> bs[k].SessionType != nil && shapeOK(bs[k].SessionType) && size(bs[k].SessionType) >= 0 && size(bs[k].SessionType) < bound
+
+// The type environment as mathematical values: the set of defined names and the map name -> definition.
+//@ spec envShape(V Arr[string]LabelledType, D Set[string]) bool = forall n string :: D[n] ==> shapeOK(V[n].Type)
+
+//@ spec modeOf(t SessionType) Modality = ite(is(t, LabelType), LabelType(t).Mode, ite(is(t, UnitType), UnitType(t).Mode,
+//@      ite(is(t, SendType), SendType(t).Mode, ite(is(t, ReceiveType), ReceiveType(t).Mode, ite(is(t, SelectLabelType), SelectLabelType(t).Mode,
+//@      ite(is(t, BranchCaseType), BranchCaseType(t).Mode, ite(is(t, UpType), UpType(t).To, DownType(t).To)))))))
+
+//@ contract interface SessionType.Modality(self)
+//@   ensures C06.modeOf: result == modeOf(self)
+//@   safety C09
+//@   pure
+
+// ---------------------------------------------------------------------------------------------
+// C10: well-formedness of types
+
+//@ macro distinctLabels(bs []Option) bool = forall i int, j int :: 0 <= i && i < j && j < len(bs) ==> bs[i].Label != bs[j].Label
+//@ macro optionsLabelsOK(bs []Option, D Set[string]) bool = forall k int :: 0 <= k && k < len(bs) ==> labelsOK(bs[k].SessionType, D)
+//@ spec labelsOK(t SessionType, D Set[string]) bool =
+//@    (is(t, LabelType) ==> D[LabelType(t).Label]) &&
+//@    (is(t, SendType) ==> labelsOK(SendType(t).Left, D) && labelsOK(SendType(t).Right, D)) &&
+//@    (is(t, ReceiveType) ==> labelsOK(ReceiveType(t).Left, D) && labelsOK(ReceiveType(t).Right, D)) &&
+//@    (is(t, SelectLabelType) ==> distinctLabels(SelectLabelType(t).Branches) && optionsLabelsOK(SelectLabelType(t).Branches, D)) &&
+//@    (is(t, BranchCaseType) ==> distinctLabels(BranchCaseType(t).Branches) && optionsLabelsOK(BranchCaseType(t).Branches, D)) &&
+//@    (is(t, UpType) ==> labelsOK(UpType(t).Continuation, D)) &&
+//@    (is(t, DownType) ==> labelsOK(DownType(t).Continuation, D))
+
+//@ contract interface SessionType.checkTypeLabels(self, env)
+//@   requires shapeOK(self)
+//@   ensures C10.labels: (result == nil) == labelsOK(self, dom(env))
+//@   decreases size(self)
+//@   safety C09, C10
+
+//@ contract (*SelectLabelType).checkTypeLabels
+//@   loop 1 invariant (forall k int :: 0 <= k && k <= idx ==> labelsOK(q.Branches[k].SessionType, dom(labelledTypesEnv)))
+//@   loop 1 invariant (forall i int, j int :: 0 <= i && i < j && j <= idx ==> q.Branches[i].Label != q.Branches[j].Label)
+//@   loop 1 invariant (forall k int :: 0 <= k && k <= idx ==> has(existingLabels, q.Branches[k].Label))
+//@   loop 1 invariant (forall s string :: has(existingLabels, s) ==> (exists k int :: 0 <= k && k <= idx && q.Branches[k].Label == s))
+//@   loop 1 invariant existingLabels != nil
+
+//@ contract (*BranchCaseType).checkTypeLabels
+//@   loop 1 invariant (forall k int :: 0 <= k && k <= idx ==> labelsOK(q.Branches[k].SessionType, dom(labelledTypesEnv)))
+//@   loop 1 invariant (forall i int, j int :: 0 <= i && i < j && j <= idx ==> q.Branches[i].Label != q.Branches[j].Label)
+//@   loop 1 invariant (forall k int :: 0 <= k && k <= idx ==> has(existingLabels, q.Branches[k].Label))
+//@   loop 1 invariant (forall s string :: has(existingLabels, s) ==> (exists k int :: 0 <= k && k <= idx && q.Branches[k].Label == s))
+//@   loop 1 invariant existingLabels != nil
